@@ -568,6 +568,19 @@ pub fn gen_cli_mapped(rng: &mut Rng) -> E3Scn {
     s
 }
 
+/// a storm of changes inside one long debounce window, and the interrupt / terminate signal landing on it
+pub fn gen_cli_storm(rng: &mut Rng) -> E3Scn {
+    let mut s = gen_cli(rng);
+    s.family = "cli-quit-early".into();
+    s.debounce_ms = 1000;
+    s.delay_run_ms = None;
+    s.postpone = false;
+    s.map_signals.clear();
+    let n = *rng.pick(&[20u32, 33, 40, 80]);
+    s.steps = (0..n).map(|i| E3Step { gap: if i == 0 { 3000 } else { 0 }, kind: E3Kind::Change { id: 10 + i } }).collect();
+    s
+}
+
 /// changes placed exactly at child transitions (exit of the current run, start of the follow-up)
 pub fn gen_cli_race(rng: &mut Rng) -> E3Scn {
     let mut s = gen_cli(rng);
